@@ -183,6 +183,24 @@ theorem u128_quoRem64_exact' (u : U128) (v : Nat) (hu : u.WF) (hv : v ≠ 0) :
 example : U128.WF ⟨7, 5⟩ ∧ (3 : Nat) ≠ 0 ∧ U128.quoRem64 ⟨7, 5⟩ 3 = .ok (⟨2, 6148914691236517207⟩, 0) :=
   ⟨by decide, by decide, rfl⟩
 
+/-! ## `Uint128.QuoRem` (both branches) -/
+
+/-- for `v ≠ 0`: no `bits.Div64` panic, `Mul64` / `Sub` / `Add64` never overflow, and quotient and
+remainder are exact.  The branch `v.w1 ≠ 0` is the normalised trial quotient
+`tq = ⌊u / (⌊v / 2^s⌋ 2^s)⌋ ∈ {⌊u/v⌋, ⌊u/v⌋ + 1}` (`trial_quot` in `Lemmas/FpDiv.lean`). -/
+theorem u128_quoRem_exact (u v : U128) (hu : u.WF) (hv : v.WF) (hv0 : v.toNat ≠ 0) :
+    U128.quoRem u v = .ok (U128.ofNat (u.toNat / v.toNat), U128.ofNat (u.toNat % v.toNat)) :=
+  U128.quoRem_spec u v hu hv hv0
+
+/-- hypotheses satisfiable on a non-trivial pair taking the trial-quotient branch (`v.w1 ≠ 0`) with the
+final correction step: `(2^128 - 1) / (2^64 + 1) = 2^64 - 1` remainder `0` (evaluated through the
+theorem, since `Nat.log2` does not reduce by `rfl`) -/
+example : U128.WF ⟨18446744073709551615, 18446744073709551615⟩ ∧ U128.WF ⟨1, 1⟩ ∧ U128.toNat ⟨1, 1⟩ ≠ 0 ∧
+    U128.quoRem ⟨18446744073709551615, 18446744073709551615⟩ ⟨1, 1⟩ =
+      .ok (⟨0, 18446744073709551615⟩, ⟨0, 0⟩) :=
+  ⟨by decide, by decide, by decide,
+    (u128_quoRem_exact _ _ (by decide) (by decide) (by decide)).trans rfl⟩
+
 /-! ## `Uint256.Mul` -/
 
 /-- schoolbook 4×4 product: exact when it fits in 256 bits, `.error ()` (Go panic) exactly otherwise.
@@ -216,5 +234,20 @@ set_option maxRecDepth 100000 in
 example : U256.WF ⟨0, 1, 0, 5⟩ ∧ U256.WF ⟨0, 0, 1, 3⟩ ∧ U256.toNat ⟨0, 0, 1, 3⟩ ≠ 0 ∧
     U256.div ⟨0, 1, 0, 5⟩ ⟨0, 0, 1, 3⟩ = some (.ok ⟨0, 0, 0, 18446744073709551613⟩) :=
   ⟨by decide, by decide, by decide, rfl⟩
+
+/-! ## The well-formedness hypotheses are satisfiable on non-trivial values (and the model computes) -/
+
+example : U128.WF ⟨5, 7⟩ ∧ (3 : Nat) < W ∧ U128.mul64 ⟨5, 7⟩ 3 = .ok ⟨15, 21⟩ := ⟨by decide, by decide, rfl⟩
+example : U128.WF ⟨5, 7⟩ ∧ U128.WF ⟨5, 9⟩ ∧ U128.sub ⟨5, 7⟩ ⟨5, 9⟩ = .error () ∧
+    U128.sub ⟨5, 9⟩ ⟨5, 7⟩ = .ok ⟨0, 2⟩ ∧ U128.cmp ⟨5, 7⟩ ⟨5, 9⟩ = -1 :=
+  ⟨by decide, by decide, rfl, rfl, rfl⟩
+example : U256.WF ⟨0, 0, 1, 2⟩ ∧ U256.WF ⟨0, 0, 3, 4⟩ ∧
+    U256.mul ⟨0, 0, 1, 2⟩ ⟨0, 0, 3, 4⟩ = .ok ⟨0, 3, 10, 8⟩ ∧
+    U256.mul ⟨1, 0, 0, 0⟩ ⟨0, 0, 1, 0⟩ = .error () := ⟨by decide, by decide, rfl, rfl⟩
+example : U256.WF ⟨1, 2, 3, 4⟩ ∧ U256.leftShift ⟨1, 2, 3, 4⟩ 65 = ⟨4, 6, 8, 0⟩ ∧
+    U256.rightShift ⟨1, 2, 3, 4⟩ 65 = ⟨0, 0, 9223372036854775809, 1⟩ := ⟨by decide, rfl, rfl⟩
+example : U128.WF ⟨1, 2⟩ ∧ U128.leftShift ⟨1, 2⟩ 3 = ⟨8, 16⟩ ∧ U128.leftShift ⟨1, 2⟩ 64 = ⟨2, 0⟩ ∧
+    U128.rightShift ⟨1, 2⟩ 1 = ⟨0, 9223372036854775809⟩ ∧ U128.rightShift ⟨1, 2⟩ 200 = ⟨0, 0⟩ :=
+  ⟨by decide, rfl, rfl, rfl, rfl⟩
 
 end ObiVerif.Props.C20
